@@ -189,6 +189,21 @@ class TraceVisitor(Visitor):
         address = self.address[:]
         objective = self.objective
 
+        if loop.iterations <= 0:
+            # The body is never executed: move on to the first trace that
+            # starts after this loop, or the walk would return to it forever.
+            depth = len(address)
+            while (
+                self.index < len(self.traces)
+                and self.traces[self.index].start[:depth] == address
+            ):
+                self.index += 1
+            if self.index == len(self.traces):
+                self.objective = None
+            else:
+                self.objective = self.traces[self.index].start
+            return
+
         # loop over the classical parts
         for n in range(loop.iterations):
             # Restore the walk status at the start of every loop
